@@ -570,15 +570,20 @@ func (s *Server) validateConnect(cl *Client, pk packets.Packet) packets.Code {
 // session is abandoned.
 func (s *Server) inheritClientSession(pk packets.Packet, cl *Client) bool {
 	if existing, ok := s.Clients.Get(cl.ID); ok {
-		_ = s.DisconnectClient(existing, packets.ErrSessionTakenOver)                                   // [MQTT-3.1.4-3]
-		if pk.Connect.Clean || (existing.Properties.Clean && existing.Properties.ProtocolVersion < 5) { // [MQTT-3.1.2-4] [MQTT-3.1.4-4]
+		discard := pk.Connect.Clean || (existing.Properties.Clean && existing.Properties.ProtocolVersion < 5) // [MQTT-3.1.2-4] [MQTT-3.1.4-4]
+		if !discard {
+			// mark the session as taken over before its connection is stopped: the old connection's own
+			// teardown must not discard (expire) the session that is being resumed here.
+			existing.State.isTakenOver.Store(true)
+		}
+		_ = s.DisconnectClient(existing, packets.ErrSessionTakenOver) // [MQTT-3.1.4-3]
+		if discard {
 			s.UnsubscribeClient(existing)
 			existing.ClearInflights()
 			existing.State.isTakenOver.Store(true) // only set isTakenOver after unsubscribe has occurred
 			return false                           // [MQTT-3.2.2-3]
 		}
 
-		existing.State.isTakenOver.Store(true)
 		if existing.State.Inflight.Len() > 0 {
 			cl.State.Inflight = existing.State.Inflight.Clone() // [MQTT-3.1.2-5]
 			if cl.State.Inflight.maximumReceiveQuota == 0 && cl.ops.options.Capabilities.ReceiveMaximum != 0 {
